@@ -140,7 +140,7 @@ class ChargingPriceUpdate(SimulationUpdateFunction):
             # apply update to all stations
             # if these updates are in the form of GeoIds, map them to StationIds
             as_station_updates = _map_to_station_ids(charger_update, sim_state)
-            station_ids_to_update = set(sim_state.get_station_ids()).union(
+            station_ids_to_update = set(sim_state.get_station_ids()).intersection(
                 as_station_updates.keys()
             )
 
@@ -259,6 +259,9 @@ def _map_to_station_ids(
                     for search_geoid in search_geoids
                     if sim.s_search.get(search_geoid)
                     for station_id in sim.s_search[search_geoid]
+                    # a geoid finer than the search resolution names only the stations inside it
+                    if res <= sim.sim_h3_search_resolution
+                    or h3.h3_to_parent(sim.stations[station_id].geoid, res) == k
                 )
 
                 # all of these station ids should get entries managers the provided geoid
